@@ -249,7 +249,7 @@ func applyModel(m *Model, o Op) (MOut, Outcome) {
 			flag, perm = os.O_RDWR|os.O_CREATE|os.O_TRUNC, 0o666
 		}
 		mo, n := m.Open(o.A, flag, perm)
-		if !mo.OK {
+		if !mo.OK || mo.Amb {
 			return mo, Outcome{}
 		}
 		if !o.NoWrite && flag&3 != os.O_RDONLY {
